@@ -589,7 +589,7 @@ func main() {
 
 	base := runtime.NumGoroutine()
 
-	ngroups := r.N(20000, 500000)
+	ngroups := r.N(20000, 300000)
 	r.Parallel("groups", 64, func(w int) {
 		rec := g3lib.NewRec(r)
 		defer rec.Flush()
@@ -606,7 +606,7 @@ func main() {
 		r.Violation("group:goroutines-left-behind-at-quiescence", map[string]any{"baseline": base, "after": left, "stacks": trunc(string(buf), 6000)})
 	}
 
-	nral := r.N(4000, 60000)
+	nral := r.N(4000, 40000)
 	r.Parallel("recoverandlog", 32, func(w int) {
 		rec := g3lib.NewRec(r)
 		defer rec.Flush()
